@@ -19,6 +19,7 @@ type State struct {
 	res  map[string]Value // named results of the contract at a return
 	ghost map[string]Value // ghost names bound by `let` clauses
 	borrowed []borrowRec   // memory handed out by callees that the function under proof must not write
+	bc       *boundCache   // variable bounds read off the path condition (see bounds.go)
 }
 
 // borrowRec: a slice returned by a callee whose contract marks it `borrowed`: it may alias storage of
@@ -131,6 +132,7 @@ func unsupported(format string, args ...interface{}) {
 
 // Exec is the symbolic executor for one function under contract (or one lemma).
 type Exec struct {
+	specDepth int // > 0 while a function body is executed on behalf of contract text
 	U     *Universe
 	Pkg   *packages.Package
 	C     *Contract
@@ -319,6 +321,9 @@ func navigate(v Value, path []string) Value {
 	for _, f := range path {
 		sv, ok := v.(StructV)
 		if !ok {
+			if _, isErr := v.(ErrV); isErr {
+				unsupported("access to field %s of an error value through a pointer (error values are modelled by value)", f)
+			}
 			panic(fmt.Sprintf("navigate %v through non-struct %T", path, v))
 		}
 		v = sv.F[f]
